@@ -21,6 +21,15 @@ if [ "$1" = "C11" ]; then
     echo "BUILD-ERROR: the instrumented harness does not build against /repo's working tree" >&2
     exit 2
   fi
+  # free-running race-detector pass over the same scenario bodies (uninstrumented packages, -race)
+  if ! go build -race -overlay bin/c11-overlay/overlay-min.json -o bin/c11race ./cmd/c11 2> bin/build.err; then
+    cat bin/build.err >&2
+    echo "BUILD-ERROR: the race-detector harness does not build against /repo's working tree" >&2
+    exit 2
+  fi
+  rm -f bin/c11race.json
+  ./bin/c11race racepass "${2:-quick}" "$PWD/bin/c11race.json" || { echo "HARNESS-ERROR: race-detector pass" >&2; exit 2; }
+  export C11_RACE_RESULT="$PWD/bin/c11race.json"
   exec ./bin/c11 "${2:-quick}"
 fi
 if ! go build -o bin/check ./cmd/check 2> bin/build.err; then
